@@ -584,7 +584,7 @@ class Twister:
                     nm, vv = names, vals
                 send = [math.degrees(v) for v in vv] if unit == 'deg' else list(vv)
                 arg = {'list': list, 'tuple': tuple, 'ndarray': np.array, 'list1': list, 'ndarray1': np.array}[form](send)
-                ctx.case(cid, key=self.key0 + ('vec', unit, form), n=len(vv))
+                ctx.case(cid, key=self.key0 + ('vec', unit, form, tuple(vv)), n=len(vv))
                 p = self.params(method='vec', unit=unit, form=form)
                 ok, got = call(S.exp, arg, unit)
                 m = self.pose(cid, site, p, ok, got, n=len(vv))
